@@ -267,6 +267,16 @@ def check_merge(r, ctx):
         qs = [["vertex", k, 0.0, 0.0] for k in range(len(mll["center"]))] + [["interior", k, 0.37, 0.0]
                                                                                for k in range(len(mll["center"]) - 1)]
         validate_arclength(merged, mll, qs, ctx, tag="merged-")
+    if r.get("prequery"):
+        # merging only reads its arguments: the parts are still the lanelets of their own lines - also when the merge is
+        # repeated with the same parts
+        for part, pll, nm in ((l1, a, "first"), (l2, b, "second")):
+            qs = [["vertex", k, 0.0, 0.0] for k in range(len(pll["center"]))]
+            validate_arclength(part, pll, qs, ctx, tag="part-%s-after-merge-" % nm)
+        again = Lanelet.merge_lanelets(l2, l1) if r["swap"] else Lanelet.merge_lanelets(l1, l2)
+        if joined and abs(float(again.distance[-1]) - float(merged.distance[-1])) > 1e-9 * (1 + float(merged.distance[-1])):
+            raise Violation("merge-not-repeatable", "second merge of the same parts has length %r, the first %r" % (
+                float(again.distance[-1]), float(merged.distance[-1])))
     if not joined:
         # parts that do not touch: all vertices are kept, and the merged lanelet is again the lanelet of its own lines
         mll = {name: a[name] + b[name] for name in ("left", "right", "center")}
